@@ -32,8 +32,34 @@ pub struct GameFile {
 }
 
 pub fn json_file(label: &str, tree: &Tree) -> Option<GameFile> {
+    json_file_layout(label, tree, 0)
+}
+
+/// The extension a generated file is stored under: JSON files in layout 1 / 2 get one the program
+/// does not know, so that it has to recognise the format from the contents.
+pub fn file_ext(file: &GameFile) -> &'static str {
+    if file.format == "json" && (file.label.ends_with("(leading white space)") || file.label.ends_with("(compact)")) {
+        "game"
+    } else {
+        file.format
+    }
+}
+
+/// layout 0: pretty-printed from the first byte; 1: the same after leading white space (newline,
+/// blank, tab) and with a trailing newline; 2: compact, one line
+pub fn json_file_layout(label: &str, tree: &Tree, layout: usize) -> Option<GameFile> {
     let dsl = tree.to_dsl()?;
-    Some(GameFile { label: label.to_string(), text: serde_json::to_string_pretty(&dsl).unwrap(), format: "json", model: tree.clone(), sum: 0.0, canonical_order: true })
+    let text = match layout % 3 {
+        0 => serde_json::to_string_pretty(&dsl).unwrap(),
+        1 => format!("\n \t{}\n", serde_json::to_string_pretty(&dsl).unwrap()),
+        _ => serde_json::to_string(&dsl).unwrap(),
+    };
+    let label = match layout % 3 {
+        0 => label.to_string(),
+        1 => format!("{} (leading white space)", label),
+        _ => format!("{} (compact)", label),
+    };
+    Some(GameFile { label, text, format: "json", model: tree.clone(), sum: 0.0, canonical_order: true })
 }
 
 #[derive(Debug, Clone, Copy, PartialEq)]
